@@ -3,10 +3,11 @@ proved specification closedb G d = true <-> Closed G d) is run on every document
 implementation produces from generated workbooks; (h) plain JSON and (i) absence of the
 hard-exit sentinel are checked on the serialised text."""
 import json
+import re
 
 import flowutil
 import sheetgen
-from common import enc_str
+from common import enc_str, enc_list, parse_sexp, dec_str, run_cli_mode
 
 LEVEL = "translation_validation"
 CLAUSES = {1: "node identifiers are not unique", 2: "a node/exit/category/case clause fails (b-f)",
@@ -85,6 +86,65 @@ def directed_dup_cases():
         ("one-node", "template with a node id inserted once into each of two flows", with_block(
             {"f1": [msg("1", S, "hi"), ins("i1", "1")], "f2": [msg("1", S, "ho"), ins("i1", "1", "d2")]})),
     ]
+
+
+def impl_validation(uuid_lists):
+    """FlowParser._compile_flow on flows of ONE container, each given as the list of its node uuids (basic nodes
+    in row node groups).  Per flow: None = passes, else the uuid the critical error names ('?' when the message
+    quotes none)."""
+    import tablib
+    from rpft.parsers.creation.flowparser import FlowParser, RowNodeGroup
+    from rpft.rapidpro.models.containers import RapidProContainer
+    from rpft.rapidpro.models.nodes import BasicNode
+
+    container = RapidProContainer()
+    out = []
+    for i, us in enumerate(uuid_lists):
+        fp = FlowParser(container, f"v{i}", table=tablib.Dataset(headers=["row_id", "type"]))
+        for u in us:
+            node = BasicNode(uuid=u)
+            node.update_default_exit(None)
+            fp.current_node_group().add_node_group(RowNodeGroup(node, "send_message"))
+        r = run_cli_mode(fp._compile_flow)
+        if r[0] == "ok":
+            if [n.uuid for n in r[1].nodes] != list(us):
+                out.append("nodes changed")
+            else:
+                container.add_flow(r[1])
+                out.append(None)
+        else:
+            q = re.findall(r'"([^"]*)"', str(r[-1]))
+            out.append(q[0] if r[1] == "critical" and q else "?" if r[1] == "critical" else "crash " + str(r[1:]))
+    return out
+
+
+def validation_correspondence(ctx):
+    """model (Flow/NodeIdCheck.v: compile_flow_validation, following the probed compile_checks_node_uuids) vs
+    FlowParser._compile_flow on lists of node uuids over a small pool (so that repetitions are frequent), one
+    to three flows per container (a repeated uuid ACROSS flows is not an error)"""
+    m, rng = ctx.model, ctx.rng
+    if not m:
+        return
+    pool = [sheetgen.new_uuid(rng) for _ in range(5)]
+    cases = [[[]], [[pool[0]]], [[pool[0], pool[0]]], [[pool[0], pool[1]], [pool[0], pool[1]]], [[pool[0], pool[1], pool[0]], [pool[1]]]]
+    for _ in range(150 * ctx.scale):
+        cases.append([[rng.choice(pool) for _ in range(rng.choice([0, 1, 2, 3, 4, 6]))] for _ in range(rng.choice([1, 1, 2, 3]))])
+    flat = [us for c in cases for us in c]
+    outs = m.ask_many(["(101 1 %s)" % enc_list(enc_str(u) for u in us) for us in flat])
+    k, passed, rejected = 0, 0, 0
+    for c in cases:
+        im = impl_validation(c)
+        for us, r in zip(c, im):
+            mo = parse_sexp(outs[k])
+            mo = dec_str(mo[0]) if mo else None
+            k += 1
+            ctx.v.coverage["evaluations"] += 1
+            passed += r is None
+            rejected += r is not None
+            if mo != r and not (r == "?" and mo is not None):
+                ctx.disagree("_compile_flow node-uuid validation", repr(us), repr(mo), repr(r))
+    ctx.stats["validation_correspondence"] = dict(flows=k, passed=passed, rejected=rejected,
+                                                  model_has_validation=m.ask("(101 2)") == "1")
 
 
 def judge(ctx, sheets, nontrivial, samples, label, outcome=None):
@@ -195,6 +255,7 @@ def run(ctx):
         judge(ctx, sheets, nontrivial, samples, "directed_dup_node_id", out)
         directed[f"{what} [{expect}]"] = out[0]
     ctx.stats["directed_duplicate_node_id"] = directed
+    validation_correspondence(ctx)
     for i in range(n):
         rng = ctx.rng
         x = rng.random()
